@@ -183,9 +183,22 @@ func c14Operand(k int, s string) interface{} {
 		return []string{s}
 	case 10:
 		return nil
+	case 11:
+		// a typed nil pointer whose Format method panics on the nil
+		// receiver: fmt reports <nil>, with or without a wrapper
+		return (*pfmter)(nil)
+	}
+	if k >= 20 {
+		// the general value table (methods that panic, nil receivers,
+		// Stringers, errors, GoStringers, containers)
+		return mkValue(k-20, s, 42)
 	}
 	panic("c14Operand")
 }
+
+type pfmter struct{ s string }
+
+func (x *pfmter) Format(st fmt.State, verb rune) { st.Write([]byte("F(" + x.s + ")")) }
 
 // H_c14w: under the standard fmt, Safe(x) and Unsafe(x) print exactly
 // like x, and a forwarding formatter prints like a direct call; under
